@@ -19,6 +19,14 @@ TRUSTED = [
 def classify(chk, s, r, an, findings):
     """map one C13 anomaly to ('ok' | 'known' | 'violation', text)"""
     kind = an[0] if isinstance(an, tuple) else an
+    if kind == "AActiveOver" and oracle_only(s):
+        return "ok", "not judged: the clause is validated on the model's run, which does not carry this scenario"
+    if kind == "ASilentLoss" and oracle_only(s):
+        j, opi = an[1], an[2]
+        started = any(isinstance(e, tuple) and e[0] == "EStart" and e[1] == j for evs in r["impl"][:opi + 1] for e in evs)
+        if started and s["ops"][opi][0] in ("t", "hold", "rel"):
+            return "ok", "lost together with a worker the dead man's switch killed as stuck (it was in that worker's handler)"
+        return "violation", f"job {j} disappeared in op #{opi} of a dead-man's-switch history without being in a handler"
     if kind == "ASilentLoss":
         j, opi = an[1], an[2]
         cause = model_cause(r["model"], j)
@@ -89,6 +97,7 @@ def run(chk):
         scns += [gen_window_scenario(chk.rng) for _ in range(n // 4)]
         scns += [gen_settings_scenario(chk.rng) for _ in range(n // 4)]
         scns += [gen_long_scenario(chk.rng) for _ in range(n // 5)]
+        scns += [gen_stuck_scenario(chk.rng) for _ in range(n // 8)]
         scns += [gen_empty_pool_scenario(chk.rng) for _ in range(n // 8)]
     res, htbl = evaluate("C13", build, scns)
 
@@ -111,7 +120,7 @@ def run(chk):
                 real = True
                 chk.violation("C13 violated: " + info,
                               "C13 oracle check_C13 rejects the implementation's history: " + info + "\n" + desc)
-        d = first_diff(s, r["impl"], r["model"])
+        d = None if oracle_only(s) else first_diff(s, r["impl"], r["model"])
         if d is not None and not real:
             chk.coverage["disagreements_checked"] += 1
             k, a, b = d
